@@ -181,7 +181,7 @@ package dawn
 //@   ensures  changed-after-a-successful-body: (n_body == old(n_body) + 1 && body_ok && result == nil) ==> t.changed
 //@   ensures  restamped-after-execution: (n_body == old(n_body) + 1 && body_ok && result == nil && restamps(t.target)) ==> t.data != info.Data
 //@   callsite TargetUpToDate: assert skip-sound: !proj.always && depsUpToDate && upToDate && !info.Rerun
-//@   callsite upToDate: assert dependencies-are-blamed-only-by-name: depsUpToDate == (len(outOfDateDeps) == 0)
+//@   callsite upToDate: assert dependencies-are-blamed-only-by-name: depsUpToDate == (len(outOfDateDeps) == 0) && (forall k: int :: 0 <= k && k < len(outOfDateDeps) ==> (exists j: int :: 0 <= j && j < len(deps) && outOfDateDeps[k] == deps[j]))
 //@   callsite TargetEvaluating: assert not-skippable: proj.always || !depsUpToDate || !upToDate || info.Rerun
 //@   callsite evaluate: assert after-evaluating: phase == 1 && !proj.dryrun
 //@   callsite upToDate: assert own-check-after-dependencies: n_depeval == old(n_depeval) + 1
@@ -189,6 +189,7 @@ package dawn
 //@   loop over engine.EvaluateTargets(): invariant phase == 0 && !was_eval && n_body == old(n_body) && n_save == old(n_save)
 //@   loop over engine.EvaluateTargets(): invariant depData != nil && proj != nil
 //@   loop over engine.EvaluateTargets(): invariant blamed-dependencies-are-named: depsUpToDate == (len(outOfDateDeps) == 0)
+//@   loop over engine.EvaluateTargets(): invariant blamed-names-are-dependencies: forall k: int :: 0 <= k && k < len(outOfDateDeps) ==> (exists j: int :: 0 <= j && j < len(deps) && outOfDateDeps[k] == deps[j])
 //@   loop over engine.EvaluateTargets(): step dep-blamed: when !depsUpToDate && old(depsUpToDate) ensures !ok || dep.Target.(*dawn.runTarget).changed || newData != prevData
 //@   loop over engine.EvaluateTargets(): step dep-checked: when depsUpToDate ensures old(depsUpToDate) && ok && !dep.Target.(*dawn.runTarget).changed && newData == prevData && depData[label] == newData && dep.Error == nil
 
